@@ -15,7 +15,7 @@ import time
 VERIF = os.path.dirname(os.path.dirname(os.path.abspath(__file__)))
 SPEC = os.path.join(VERIF, "spec")
 OUT = os.path.join(VERIF, "out")
-HARNESS = os.path.join(VERIF, "harness")
+HARNESS = os.environ.get("KV_HARNESS_DIR", os.path.join(VERIF, "harness"))   # (KV_HARNESS_DIR: developer tool bin/seedtest only)
 TARGET = os.environ.get("KV_TARGET_DIR", os.path.join(HARNESS, "target"))
 BIN = os.path.join(TARGET, "debug")
 JAR = "/opt/veriftools/tla/tla2tools.jar"
